@@ -418,6 +418,11 @@ impl ChannelManager {
 
     channel_inner.insert_member(new_member_nid.clone());
 
+    // Update the list of channels the connection is a member of. This happens together with the
+    // member insertion, under the channel lock and before any suspension point, so that the two
+    // views cannot be observed (or abandoned by a cancelled request) out of step.
+    in_channels.entry(new_member_nid.username.clone()).or_default().insert(channel_id.clone());
+
     channel_inner
       .notify_member_joined(
         &new_member_nid,
@@ -427,9 +432,6 @@ impl ChannelManager {
       )
       .await?;
     drop(channel_inner);
-
-    // Update the list of channels the connection is a member of.
-    in_channels.entry(new_member_nid.username.clone()).or_default().insert(channel_id.clone());
 
     // Send response back to the client.
     transmitter.send_message(Message::JoinChannelAck(JoinChannelAckParameters {
